@@ -43,5 +43,5 @@ def post_adjust(case):
     return case
 
 
-SWEEP = (8, 120)
+SWEEP = (4, 120)
 install(globals(), ID, 3000, 40000)
